@@ -426,6 +426,42 @@ impl Property for C12 {
             self.typed_lists(acc, i, &mut r);
             return;
         }
+        let grid_blocks = (KINDS.len() * 4) as u64;
+        if i < grid_blocks && i % 100 != 7 {
+            // directed grid: in a well-formed reply of each kind, EVERY field in turn gets EVERY value of the
+            // edge set (so that each parsed field meets each hostile value at least once), all converters
+            let convs = converters();
+            let kind = KINDS[(i as usize) % KINDS.len()];
+            let (fields, binary) = source(&mut r, kind);
+            acc.inc("edge_grid_replies");
+            for p in 0..fields.len().min(24) {
+                for edge in VALUE_EDGES {
+                    let mut f = fields.clone();
+                    if f[p].0 == "binary" {
+                        continue;
+                    }
+                    f[p].1 = edge.to_string();
+                    let Ok(frame) = frame_of(&f, binary.clone()) else { continue };
+                    acc.inc("edge_grid_frames");
+                    for (name, conv) in &convs {
+                        acc.inc("evaluations");
+                        acc.inc("conversions");
+                        let fr = frame.clone();
+                        match panics::catch(|| conv(fr)) {
+                            Ok(o) => acc.inc(&format!("outcome_{}", o)),
+                            Err(pn) => acc.violation(
+                                i,
+                                None,
+                                format!("{}::response (or reading its result) panicked on a {} reply with `{}: {}`: {}", name, kind, f[p].0, edge.chars().take(40).collect::<String>(), pn.0),
+                                J::obj().set("command", *name).set("reply_kind", kind).set("reply", J::Arr(f.iter().map(|(k, v)| J::Str(format!("{}: {}", k, v.chars().take(60).collect::<String>()))).collect())),
+                            ),
+                        }
+                    }
+                    acc.distinct("nontrivial", mix(&[hash_bytes(kind.as_bytes()), hash_bytes(f[p].0.as_bytes()), hash_bytes(edge.as_bytes())]));
+                }
+            }
+            return;
+        }
         let convs = converters();
         let kind = KINDS[(i as usize) % KINDS.len()];
         let (mut fields, mut binary) = source(&mut r, kind);
@@ -483,14 +519,14 @@ impl Property for C12 {
     fn meta(&self, _cfg: &Cfg, _acc: &Acc) -> Meta {
         Meta {
             level: "exploration",
-            rule: "frames are produced by the real parser from 21 kinds of well-formed replies (status, stats, count, grouped count, list, grouped list, listplaylists, sticker get/list/find, channels, readmessages, tagtypes, update, replay gain, addid, database and queue listings, album art with binary, empty, idle) with 0-3 mutations (drop/duplicate/reorder fields, foreign keys, values from a 70-entry edge set: 2^64, 1e309, NaN, inf, negative, ranges, '=', RFC 3339 garbage, 300-digit numbers), binary toggled; EVERY one of the 66 predefined command/constructor families converts every frame under catch_unwind inside child processes and the result is walked (Debug, Clone, ==, every iterator and accessor of List/Song/Timestamp/sticker types, error Display/source chain); typed lists: tuples of every arity 1-8 and Vec lengths 0-5 against frame counts 0..=n+2; default and chrono build; non-trivial = (command, frame) pair where the frame is not the command's own unmutated reply; distinct by (command, frame fields)".into(),
+            rule: "directed grid: in a well-formed reply of each of 21 kinds every field in turn gets every value of the 75-entry edge set; random part: frames are produced by the real parser from 21 kinds of well-formed replies (status, stats, count, grouped count, list, grouped list, listplaylists, sticker get/list/find, channels, readmessages, tagtypes, update, replay gain, addid, database and queue listings, album art with binary, empty, idle) with 0-3 mutations (drop/duplicate/reorder fields, foreign keys, values from a 70-entry edge set: 2^64, 1e309, NaN, inf, negative, ranges, '=', RFC 3339 garbage, 300-digit numbers), binary toggled; EVERY one of the 66 predefined command/constructor families converts every frame under catch_unwind inside child processes and the result is walked (Debug, Clone, ==, every iterator and accessor of List/Song/Timestamp/sticker types, error Display/source chain); typed lists: tuples of every arity 1-8 and Vec lengths 0-5 against frame counts 0..=n+2; default and chrono build; non-trivial = (command, frame) pair where the frame is not the command's own unmutated reply; distinct by (command, frame fields)".into(),
             nontrivial_set: "nontrivial",
             assumptions: vec![
                 "frames can only be made by the real parser, so field names outside its alphabet [A-Za-z_-] cannot reach the typed layer today; such replies are counted as refused by the protocol layer".into(),
                 "abort containment: cases run in child processes with a write-ahead case id".into(),
             ],
             exhaustive: None,
-            floors: vec![("conversions".into(), 50_000), ("typed_list_conversions".into(), 100), ("outcome_err".into(), 1000), ("outcome_ok".into(), 1000), ("evaluations_chrono_build".into(), 1)],
+            floors: vec![("edge_grid_frames".into(), 5_000), ("conversions".into(), 50_000), ("typed_list_conversions".into(), 100), ("outcome_err".into(), 1000), ("outcome_ok".into(), 1000), ("evaluations_chrono_build".into(), 1)],
             extra: vec![],
         }
     }
